@@ -218,12 +218,14 @@ impl<'a> G<'a> {
         let d = self.new_d();
         let l = self.lvl();
         let k = self.knd();
-        let obs = self.emit(format!("todirect {} {} {} {}", l, k, h.0, d));
+        // a dynamically typed key handed to ANOTHER archetype's archetype-level to_direct
+        let at = if k == "y" && l == "a" && self.rng.chance(30) { Some(self.rng.below(NARCH)) } else { None };
+        let obs = self.emit(format!("todirect {} {} {} {}{}", l, k, h.0, d, at.map(|a| format!(" @{}", a)).unwrap_or_default()));
         if obs.starts_with("d ") {
             if self.rng.chance(20) {
                 self.emit(format!("conv {}", d));
             }
-            self.dirs.push((d, h.1));
+            self.dirs.push((d, at.unwrap_or(h.1)));
         }
     }
     fn probe_some(&mut self, n: usize) {
@@ -895,9 +897,10 @@ pub fn run_sequence(st: &mut St, seed: u64, maxops: usize, profile: &str) {
                         let nd = g.new_d();
                         let l = g.lvl();
                         let k = g.knd();
-                        let o = g.emit(format!("todirect {} {} {} {}", l, k, d.0, nd));
+                        let at = if k == "y" && l == "a" && g.rng.chance(30) { Some(g.rng.below(NARCH)) } else { None };
+                        let o = g.emit(format!("todirect {} {} {} {}{}", l, k, d.0, nd, at.map(|a| format!(" @{}", a)).unwrap_or_default()));
                         if o.starts_with("d ") {
-                            g.dirs.push((nd, d.1));
+                            g.dirs.push((nd, at.unwrap_or(d.1)));
                         }
                     }
                 }
